@@ -238,5 +238,9 @@ func (h *Harness) params(tier int) map[string]int {
 			out[k] = v
 		}
 	}
+	// VERIF_SEED selects which slice of a generated program family a generator harness explores
+	if s, err := strconv.Atoi(os.Getenv("VERIF_SEED")); err == nil {
+		out["seed"] = s
+	}
 	return out
 }
